@@ -14,8 +14,9 @@
 EXTENDS KvRegion, Json
 
 Trace == ndJsonDeserialize("access.ndjson")
-VARIABLES l, j, alive, beyond
-vars == <<l, j, alive, beyond>>
+VARIABLES l, j, alive, beyond,
+          nb        \* reads past the end of every envelope still alive, counted over the whole statement
+vars == <<l, j, alive, beyond, nb>>
 
 Case == Trace[l]
 Ev == Case.events[j]
@@ -41,17 +42,22 @@ Apply(c, ev, al, by) ==
   ELSE IF ev.op = "Next" THEN
        IF c.unsat THEN [ok |-> FALSE, alive |-> al, beyond |-> by]
        ELSE IF ~ev.ok THEN [ok |-> \E p \in al : Env(c, p).tp \in {"PREFIX", "RANGE"}, alive |-> {p \in al : Env(c, p).tp \in {"PREFIX", "RANGE"}}, beyond |-> by]
-       ELSE LET a2 == ScanRead(c, al, by, ev.k) IN [ok |-> a2 # {}, alive |-> a2, beyond |-> Bump(c, by, a2, ev.k)]
+       ELSE LET a2 == ScanRead(c, al, by, ev.k)
+                past == a2 # {} /\ \A p \in a2 : ~EnvIn(ev.k, Env(c, p))
+            IN \* a statement that drains its scan once (an aggregate: record field total > 0) reads past the end at most `total`
+               \* times altogether, however often it is polled for its groups afterwards
+               [ok |-> a2 # {} /\ ~(past /\ c.total > 0 /\ nb >= c.total), alive |-> a2, beyond |-> Bump(c, by, a2, ev.k)]
   ELSE [ok |-> TRUE, alive |-> al, beyond |-> by]
 
-Init == l = 1 /\ j = 1 /\ alive = (IF Len(Trace) >= 1 THEN AllPins(Trace[1]) ELSE {}) /\ beyond = (IF Len(Trace) >= 1 THEN Zero(Trace[1]) ELSE <<>>)
-NextCase == /\ l' = l + 1 /\ j' = 1
+Init == l = 1 /\ j = 1 /\ nb = 0 /\ alive = (IF Len(Trace) >= 1 THEN AllPins(Trace[1]) ELSE {}) /\ beyond = (IF Len(Trace) >= 1 THEN Zero(Trace[1]) ELSE <<>>)
+NextCase == /\ l' = l + 1 /\ j' = 1 /\ nb' = 0
             /\ beyond' = IF l + 1 <= Len(Trace) THEN Zero(Trace[l + 1]) ELSE <<>>
             /\ alive' = IF l + 1 <= Len(Trace) THEN AllPins(Trace[l + 1]) ELSE {}
 Next == /\ l <= Len(Trace)
         /\ IF j > Len(Case.events) THEN NextCase
            ELSE LET r == Apply(Case, Ev, alive, beyond) IN
                 IF r.ok THEN /\ alive' = r.alive /\ beyond' = r.beyond /\ j' = j + 1 /\ l' = l
+                             /\ nb' = nb + (IF Ev.op = "Next" /\ Ev.ok /\ ~Case.unsat /\ \A p \in r.alive : ~EnvIn(Ev.k, Env(Case, p)) THEN 1 ELSE 0)
                 ELSE PrintT(<<"REJECT", Case.id, "read-outside-envelope", j, Ev>>) /\ NextCase
 Done == l = Len(Trace) + 1
 =============================================================================
